@@ -256,8 +256,17 @@ Definition chk (c : streams * list (rop * xp)) : bool := replay (mkR (fst c) [] 
                     '(a later call re-used a trace made at other rng counters)', {'case': c, 'jit': runs[0], 'jit_disabled': r['ok'].get('jit_disabled')})
   # branches of nn.cond / nn.switch that draw different numbers of keys, and a draw after the transform
   chk.count({'branch_draws': 1}, True)
-  for b in common.run_impl('impl_c09.py', {'branch_draws': True}, timeout=900)['branch_draws'][:4]:
+  bd = common.run_impl('impl_c09.py', {'branch_draws': True}, timeout=900)['branch_draws']
+  for b in bd['bad'][:4]:
     chk.violation('oracle', 'within one apply a key drawn inside the branch of nn.%s that ran and a later draw (or two draws of the branch) are the same key, or the call raised' % b['form'], b)
+  # ... and the counts the keys were drawn at are those of Model/Rng.v branch_counts / count_after (cond lists true_fun first: position 0)
+  brows = ['(list_beq Nat.eqb (branch_counts 0 %s %s ++ [count_after 0 %s]) %s)' % (clist([cnat(d) for d in r['draws']]), cnat(r['branch']), clist([cnat(d) for d in r['draws']]),
+                                                                                 clist([cnat(x) for x in r['counts']])) for r in bd['rows']]
+  bbad = common.coq_mismatches('c09_branch', 'From Flaxm Require Import Lib.Harness Model.Rng.\nDefinition chk (b : bool) : bool := b.\n', brows, 'chk', shard=200)
+  for i in bbad[:4]:
+    chk.violation('correspondence', 'Model/Rng.v branch_counts / count_after and the call counts of the keys drawn in and after nn.cond / nn.switch disagree (C09_branch_draws_distinct no longer transfers)',
+                  bd['rows'][i])
+  chk.cov['traces_validated_against_impl'] = chk.cov.get('traces_validated_against_impl', 0) + len(brows)
   # sibling modules / child scopes passed as ARGUMENTS into a jitted or fold_rngs-wrapped module (F31)
   ja = [{'form': f, 'nsib': rng.randint(2, 3), 'draws': rng.randint(1, 2), 'own': rng.random() < 0.6, 'applies': 2, 'seed': rng.randint(0, 99)}
         for f in ('method', 'class', 'fold', 'core') for _ in range(3 if thorough else 1)]
